@@ -1,8 +1,9 @@
 """C06 - client and server agree on identity, options and session key (spec/Handshake*.tla).
 
 1. Handshake.tla (symbolic crypto) is model-checked with Scope = "agree" (every option combination x clock offset
-   strictly inside the window, honest network) and with Scope = "sound", MaxTamper = 1 (KeyAgreement: whenever a
-   client completes, under any single tamper, it completed with the server's key and its own identity).
+   strictly inside the window, honest network); thorough also with W = 3 and with Scope = "sound", MaxTamper = 2
+   (KeyAgreement: whenever a client completes, under any tampering, it completed with the server's key and its own
+   identity).
    Vacuity (HandshakeNeg.tla, one run): each deviation flag that stands for one of the layout mistakes the property
    is about (reply offsets, method field slicing, flag bit, session-id byte order) must break an agreement invariant.
 2. HandshakeGen.tla exports every abstract case; the Go harness runs each for real N times (fresh ephemeral keys,
@@ -61,24 +62,31 @@ def run(ctx):
         jobs["mc_agree_w3"] = pool.submit(lib.run_tlc, ctx, "Handshake", "Handshake_mc.cfg", _sub("agree", 0, w=3),
                                           tag="mc_agree_w3", workers=4, timeout=900, env=JVM)
     negf = pool.submit(neg_matrix, ctx, DEVS)
-    # compile the harness while TLC runs
-    warm = pool.submit(lambda: lib.run_go(ctx, "server", "TestVerifC06Warm", tag="warm", prefixes=("c06", "c07", "shared")))
-    res = {k: f.result() for k, f in jobs.items()}
-    warm.result()
-    pool.shutdown(wait=False)
-    negr, broken = negf.result()
-    for d in DEVS:
-        if not (broken.get(d, set()) & {"Agreement", "KeyAgreement", "Soundness"}):
-            raise lib.Inconclusive("deviation %s breaks no agreement invariant in the model: the invariants would be vacuous" % d)
-    ctx.log("vacuity: each of %s breaks %s (%d states, %.1fs)" % (DEVS, {d: sorted(broken[d]) for d in DEVS}, negr.distinct, negr.wall))
-    for name, r in res.items():
-        lib.require_ok(r, name)
-        ctx.log("%s: invariants hold, %d distinct states (%.1fs)" % (name, r.distinct, r.wall))
-    cases = [b for b in res["gen_agree"].behaviours if b["verdict"] == "must-accept" and not b["tampers"]]
-    if len(cases) != len(res["gen_agree"].behaviours) or not cases:
-        raise lib.Inconclusive("Scope=agree must consist of must-accept cases only (%d of %d)" % (len(cases), len(res["gen_agree"].behaviours)))
-    inp = lib.write_lines(os.path.join(ctx.work, "c06_cases.ndjson"), cases)
-    g = lib.run_go(ctx, "server", "TestVerifC06Replay", env={"VERIF_IN": inp, "GOGC": "400"}, timeout=2400, prefixes=("c06", "c07", "shared"))
+    # `go test` is started now: compiling and linking the harness overlap with TLC; the test waits for <inp>.ready
+    inp = os.path.join(ctx.work, "c06_cases.ndjson")
+    gof = pool.submit(lambda: lib.run_go(ctx, "server", "TestVerifC06Replay", env={"VERIF_IN": inp, "VERIF_IN_WAIT": "1", "GOGC": "400"},
+                                         timeout=3000, prefixes=("c06", "c07", "shared")))
+    try:
+        res = {k: f.result() for k, f in jobs.items()}
+        negr, broken = negf.result()
+        for d in DEVS:
+            if not (broken.get(d, set()) & {"Agreement", "KeyAgreement", "Soundness"}):
+                raise lib.Inconclusive("deviation %s breaks no agreement invariant in the model: the invariants would be vacuous" % d)
+        ctx.log("vacuity: each of %s breaks %s (%d states, %.1fs)" % (DEVS, {d: sorted(broken[d]) for d in DEVS}, negr.distinct, negr.wall))
+        for name, r in res.items():
+            lib.require_ok(r, name)
+            ctx.log("%s: invariants hold, %d distinct states (%.1fs)" % (name, r.distinct, r.wall))
+        cases = [b for b in res["gen_agree"].behaviours if b["verdict"] == "must-accept" and not b["tampers"]]
+        if len(cases) != len(res["gen_agree"].behaviours) or not cases:
+            raise lib.Inconclusive("Scope=agree must consist of must-accept cases only (%d of %d)" % (len(cases), len(res["gen_agree"].behaviours)))
+        lib.write_lines(inp, cases)
+        open(inp + ".ready", "w").write("go")
+    except BaseException:
+        open(inp + ".ready", "w").write("abort")
+        raise
+    finally:
+        pool.shutdown(wait=False)
+    g = gof.result()
     lib.collect_go(ctx, g)
     gs = g["stats"]
     ctx.log("replay: %d abstract cases, %d handshakes (%d direct, %d cdn), %d end-to-end probes, stuck=%d panics=%d, %.1fs" % (
